@@ -92,8 +92,10 @@ Spec == Init /\ [][Next]_vars /\ WF_vars(Next)
 -----------------------------------------------------------------------------
 Terminates == <>(status # "running")
 CutOff == status \in {"running", "ok", "ContextDepthError", "TemplateInheritanceError", "DisabledTagError"}
-(* two independent counters bound the recursion: the scope chain of one context and the copy depth *)
-LevelsBounded == level <= 2 * Limit + 4 /\ copyDepth <= Limit + 1 /\ scopeSize <= Limit + 2
+(* two independent counters bound the recursion: the scope chain of one context and the copy depth.  A copy starts a  *)
+(* fresh scope chain, so between two copies at most Limit \div 2 + 1 includes fit: a cycle of k templates with one     *)
+(* copying edge reaches about k * (Limit + 1) levels (2 * Limit + 4 holds for k <= 2 only)                             *)
+LevelsBounded == level <= (copyDepth + 1) * (Limit \div 2 + 2) /\ copyDepth <= Limit + 1 /\ scopeSize <= Limit + 2
 (* every level strictly consumes budget: the variant that makes the recursion finite *)
 Progress == [][status' # "running" \/ level' > level
                  \/ (level' = level /\ Cardinality(seenExt') > Cardinality(seenExt))]_vars
